@@ -52,6 +52,15 @@ func (w *faultWriter) Write(p []byte) (int, error) {
 			w.failed = true
 			return 0, errDiskFull
 		}
+	case "bytesonce":
+		// fails once, in the middle of a write: accepts what fits, reports the error, works again afterwards
+		if !w.failed && w.written+len(p) > w.spec.N && w.spec.N >= w.written {
+			room := w.spec.N - w.written
+			w.buf.Write(p[:room])
+			w.written += room
+			w.failed = true
+			return room, errDiskFull
+		}
 	case "bytes":
 		room := w.spec.N - w.written
 		if room < len(p) {
@@ -175,6 +184,10 @@ func faultCase(w *W, idx int, async bool) {
 	for k := 0; k <= K+1 && k < maxSpecs/4; k++ {
 		specs = append(specs, faultSpec{"call", k}, faultSpec{"once", k})
 	}
+	for i := 0; i < maxSpecs/8; i++ {
+		specs = append(specs, faultSpec{"bytesonce", rng.Intn(L + 1)})
+	}
+	specs = append(specs, faultSpec{"bytesonce", 1}, faultSpec{"bytesonce", L / 2}, faultSpec{"bytesonce", L - 1})
 	specs = append(specs, faultSpec{"forever", 0})
 	rng.Shuffle(len(specs), func(i, j int) { specs[i], specs[j] = specs[j], specs[i] })
 	if len(specs) > maxSpecs {
@@ -326,7 +339,8 @@ func faultCaseBig(w *W, idx int, async bool) {
 		return
 	}
 	L, K := dry.written, dry.calls
-	specs := []faultSpec{{"bytes", 0}, {"bytes", 10}, {"bytes", 4096}, {"bytes", 300000}, {"bytes", L / 2}, {"bytes", L - 1}, {"forever", 0}}
+	specs := []faultSpec{{"bytes", 0}, {"bytes", 10}, {"bytes", 4096}, {"bytes", 300000}, {"bytes", L / 2}, {"bytes", L - 1}, {"forever", 0},
+		{"bytesonce", 10}, {"bytesonce", 300000}, {"bytesonce", L / 2}, {"bytesonce", L - 1}}
 	for k := 0; k <= K+1 && k < 12; k++ {
 		specs = append(specs, faultSpec{"call", k}, faultSpec{"once", k})
 	}
